@@ -23,6 +23,9 @@ def asciiAll (ts : List Str) : Bool := ts.all Str.isAscii
 def resOfString (s : String) : Option (Option Nat) :=
   if s = "none" then some none else (s.toNat?).map some
 
+def routerPort (t : String) : Option (Option Str) :=
+  if t = "-" then some none else (unhx t).map some
+
 def routerStep (st : RouterState) (tok : List String) (impl : String) : RouterState × Verdict :=
   match tok with
   | ["reset"] => ({}, verdictOf "-" impl)
@@ -87,6 +90,29 @@ def routerStep (st : RouterState) (tok : List String) (impl : String) : RouterSt
       let ms := match Host.canonicalHost h with | none => "err" | some x => hx x
       (st, verdictOf ms impl)
     | none => (st, .bad "canon")
+  | ["spell", n, d, p] =>
+    -- CanonicalHost of a spelling (name in any case, optional trailing dot, optional port suffix);
+    -- the property: a plain name's spellings all canonicalise to the lower-case name
+    match unhx n, routerPort p with
+    | some n, some p =>
+      if !asciiAll (n :: p.toList) then (st, .skip "non-ascii") else
+      let ms := match Host.canonicalHost (C06.spell n (d = "1") p) with | none => "err" | some x => hx x
+      let res : Option (Option Str) := if impl = "err" then some none else (unhx impl).map some
+      let prop := if C06.PlainName n ∧ C06.PortPlain p then res.map (fun r => C06.spellHoldsOn n p r) else none
+      (st, verdictOf ms impl prop)
+    | _, _ => (st, .bad "spell")
+  | ["hreq", n, d, p, path, u] =>
+    -- a real request through HTTPReverseProxy.ServeHTTP whose Host header is a spelling of `n`
+    match unhx n, routerPort p, unhx path, unhx u with
+    | some n, some p, some path, some u =>
+      if !asciiAll (n :: p.toList) then (st, .skip "non-ascii") else
+      let canon := (Host.canonicalHost (C06.spell n (d = "1") p)).getD []
+      let m := (getVhost st.R canon path u).map (·.payload)
+      let ms := match m with | none => "none" | some x => toString x
+      let prop := if C06.PlainName n ∧ C06.PortPlain p
+        then (resOfString impl).map (fun r => C06.holdsOn st.all (toLower n) path u r) else none
+      (st, verdictOf ms impl prop)
+    | _, _, _, _ => (st, .bad "hreq")
   | _ => (st, .bad "op")
 
 def router : Engine := { State := RouterState, init := {}, step := routerStep }
